@@ -14,6 +14,7 @@ import DustVerif.Driver.Chan
 import DustVerif.Driver.Cond
 import DustVerif.Driver.Timer
 import DustVerif.Driver.Rtps
+import DustVerif.Driver.Wrt
 open DustVerif.Driver
 
 partial def loopStateless (h : IO.FS.Stream) (out : IO.FS.Stream) (f : String → String) : IO Unit := do
@@ -49,5 +50,6 @@ def main (args : List String) : IO UInt32 := do
   | ["cond"] => loopStateful stdin stdout CondEngine.step DustVerif.Cond.Sys.init; return 0
   | ["timer"] => loopStateful stdin stdout TimerEngine.step TimerEngine.init; return 0
   | ["rtps"] => loopStateful stdin stdout RtpsEngine.step RtpsEngine.defaultSt; return 0
+  | ["wrt"] => loopStateful stdin stdout WrtEngine.step WrtEngine.initSt; return 0
   | ["hist"] => loopStateful stdin stdout HistEngine.step HistEngine.defaultSt; return 0
   | _ => IO.eprintln "usage: dustmodel <engine>"; return 2
